@@ -29,3 +29,6 @@ func Dial(network, addr string, timeout time.Duration) (net.Conn, error, bool) {
 
 // Listen lets the simulator provide a listener instead of a real socket.
 func Listen(network, addr string) (net.Listener, error, bool) { return nil, nil, false }
+
+// Knob returns def: tuning knobs exist only under the simulator.
+func Knob(name string, def int64) int64 { return def }
